@@ -5,6 +5,8 @@ package c17
 import (
 	"errors"
 	"fmt"
+	"math"
+	"os"
 	"regexp"
 	"strconv"
 	"strings"
@@ -17,6 +19,7 @@ import (
 	"verifharness/fw"
 	"verifharness/props/c08"
 	"verifharness/metah"
+	"verifharness/shardh"
 )
 
 type Prop struct{}
@@ -144,6 +147,10 @@ func (Prop) Generate(r *fw.Rand, tier string) []fw.Case {
 	var cases []fw.Case
 	for i := 0; i < n; i++ {
 		cases = append(cases, genCase(r.Fork()))
+	}
+	// the local deletion itself, on a real store
+	for i := 0; i < 4+n/100; i++ {
+		cases = append(cases, fw.Case{Ops: []string{"reset 1", fmt.Sprintf("localdel %s %s %d", []string{"inmem", "tsi1"}[i%2], []string{"disabled", "plain"}[(i/2)%2], r.Intn(1<<20))}, Tags: []string{"local-delete"}})
 	}
 	return cases
 }
@@ -284,6 +291,45 @@ func runPass(m *metah.M, f []string) (*env, string) {
 	return e, fmt.Sprintf("marked=%s deleted=%s prune=%d", showList(e.marked), showList(e.deleted), pr)
 }
 
+// localDelete: the deletion of an expired shard on a real store (tsdb.Store.DeleteShard is what
+// the retention service calls): the database has a second, unexpired shard holding the same
+// series; see shardh.RetentionDelete.
+func localDelete(index, mode, seed string) (out string) {
+	defer func() {
+		if r := recover(); r != nil {
+			out = "panic:" + strings.ReplaceAll(fmt.Sprint(r), " ", "_")
+		}
+	}()
+	dir, err := os.MkdirTemp(shardh.WorkDir("c17"), "s-")
+	if err != nil {
+		return "err:" + err.Error()
+	}
+	defer os.RemoveAll(dir)
+	h, err := shardh.New(dir, index+"+2")
+	if err != nil {
+		return "err:" + strings.ReplaceAll(err.Error(), " ", "_")
+	}
+	defer h.Close()
+	sd, _ := strconv.Atoi(seed)
+	r := fw.NewRand(uint64(sd))
+	var pts []string
+	for i, n := 0, 2+r.Intn(6); i < n; i++ {
+		pts = append(pts, fmt.Sprintf("%s|%s|%d|v=f%016x", []string{"m0", "m1", "m2"}[r.Intn(3)], []string{"-", "host=a", "host=b", "host=a,region=x"}[r.Intn(4)],
+			1600000000000000000+int64(r.Intn(40))*1000, math.Float64bits(float64(r.Intn(100)))))
+	}
+	if w := h.Write(strings.Join(pts, ";")); w != "ok" {
+		return "err:write:" + w
+	}
+	if r.Intn(2) == 0 {
+		h.Snapshot()
+	}
+	o := h.RetentionDelete(mode)
+	if strings.HasPrefix(o, "kept ") {
+		return "kept"
+	}
+	return o
+}
+
 func (Prop) RunImpl(c fw.Case) []string {
 	m := metah.New(true)
 	out := make([]string, len(c.Ops))
@@ -291,6 +337,8 @@ func (Prop) RunImpl(c fw.Case) []string {
 		f := strings.Fields(op)
 		if f[0] == "pass" {
 			_, out[i] = runPass(m, f)
+		} else if f[0] == "localdel" {
+			out[i] = localDelete(f[1], f[2], f[3])
 		} else if f[0] == "map" {
 			out[i] = c08.StepOp(m, op)
 		} else {
@@ -303,8 +351,15 @@ func (Prop) RunImpl(c fw.Case) []string {
 // Oracle: the property judged on the real metadata before each pass.
 func (Prop) Oracle(c fw.Case, implOut []string) fw.Verdict {
 	m := metah.New(true)
-	for _, op := range c.Ops {
+	for i, op := range c.Ops {
 		f := strings.Fields(op)
+		if f[0] == "localdel" {
+			if i < len(implOut) && implOut[i] != "kept" {
+				o := implOut[i]
+				return fw.Verdict{OK: false, Why: op + " => " + o, Signature: "local deletion of an expired shard: " + strings.Fields(o)[0]}
+			}
+			continue
+		}
 		if f[0] == "map" {
 			// a write is dropped as too old only if it is older than the retention period
 			now, _ := strconv.ParseInt(f[1], 10, 64)
